@@ -99,7 +99,10 @@ def rand_date(rng):
 def rand_llsd(rng, depth, text_safe):
     r = rng.random()
     if depth <= 0 or r < 0.5:
-        k = rng.randrange(7)
+        k = rng.randrange(8)
+        if k == 7:
+            # a date with a sub-second part that every LLSD flavour can carry exactly (binary fractions of a second)
+            return rand_date(rng) + dt.timedelta(microseconds=rng.choice([0, 500000, 250000, 125000, 875000]))
         if k == 0:
             return rng.randrange(-2 ** 31, 2 ** 31)
         if k == 1:
@@ -180,7 +183,28 @@ def first_diff(a, b):
     return None
 
 
+def _naive_dates(v):
+    """LLSD dates are instants: the binary parser hands them back timezone-aware (UTC), the other parsers naive (UTC by
+    convention).  Compared as instants."""
+    if isinstance(v, dt.datetime) and v.tzinfo is not None:
+        return v.astimezone(dt.timezone.utc).replace(tzinfo=None)
+    if isinstance(v, dict):
+        return {k: _naive_dates(x) for k, x in v.items()}
+    if isinstance(v, list):
+        return [_naive_dates(x) for x in v]
+    return v
+
+
+def _norm_model(model):
+    for node in model.nodes.values():
+        if getattr(node, "metadata", None):
+            node.metadata = _naive_dates(node.metadata)
+    return model
+
+
 def same_node(ctx, a, b, codec, wit):
+    if b is not None and getattr(b, "metadata", None):
+        b.metadata = _naive_dates(b.metadata)
     if b is None:
         ctx.violation(f"inventory-{codec}:node-lost", "a node did not come back from its own serialisation", wit)
         return
@@ -260,7 +284,7 @@ def inventory(ctx, n_models):
             tmodel = InventoryModel()
             for n in nodes:
                 tmodel.add(text_view(n))
-            if len(back.nodes) != len(nodes) or back != tmodel:
+            if len(back.nodes) != len(nodes) or _norm_model(back) != tmodel:
                 ctx.violation("inventory-text:model-differs", "the re-parsed model is not equal to the model", dict(wit, text=text[:1200]))
             if [n.node_id for n in back.ordered_nodes] != [n.node_id for n in model.ordered_nodes]:
                 ctx.violation("inventory-text:order-differs", "node order changed", wit)
@@ -283,7 +307,7 @@ def inventory(ctx, n_models):
             ctx.ev()
             for n in nodes:
                 same_node(ctx, n, back.nodes.get(n.node_id), "llsd-" + cname, dict(wit, node=str(n.node_id)))
-            if len(back.nodes) != len(nodes) or back != model:
+            if len(back.nodes) != len(nodes) or _norm_model(back) != model:
                 ctx.violation(f"inventory-llsd-{cname}:model-differs", "the re-parsed model is not equal to the model", wit)
         if [gen_spec.canon(node_fields(n)) for n in nodes] != pristine:
             ctx.violation("inventory:serialising-mutates-model", "serialising an inventory model changed the model itself",
@@ -338,7 +362,7 @@ def inventory(ctx, n_models):
             ctx.ev()
             for n in anodes:
                 same_node(ctx, n, back.nodes.get(n.node_id), "ais-model-" + cname, dict(wit, node=str(n.node_id)))
-            if len(back.nodes) != len(anodes) or back != amodel:
+            if len(back.nodes) != len(anodes) or _norm_model(back) != amodel:
                 ctx.violation(f"inventory-ais-model-{cname}:model-differs", "the re-parsed model is not equal to the model", wit)
         ctx.nontrivial(("inv", shape_key))
         if len(ctx.samples) < 2:
